@@ -117,6 +117,12 @@ impl Rng {
         v
     }
 
+    /// random bytes with a random length in lo..=hi
+    pub fn bytes_in(&mut self, lo: usize, hi: usize) -> Vec<u8> {
+        let n = self.usize(lo, hi);
+        self.bytes(n)
+    }
+
     pub fn shuffle<T>(&mut self, xs: &mut [T]) {
         for i in (1..xs.len()).rev() {
             let j = self.below(i as u64 + 1) as usize;
@@ -250,6 +256,12 @@ pub fn partition(rng: &mut Rng, len: usize, kind: u32) -> Vec<usize> {
         }
     }
     out
+}
+
+/// a partition of a random kind
+pub fn partition_any(rng: &mut Rng, len: usize) -> Vec<usize> {
+    let kind = rng.below(6) as u32;
+    partition(rng, len, kind)
 }
 
 pub fn hex(bytes: &[u8]) -> String {
